@@ -57,13 +57,13 @@ theorem identity_not_hop_by_hop (sc : Bool) (u : Bytes) (h : Hdr) :
   exact Bool.noConfusion hf
 
 /-- `removeHopByHopHeaders` of `httputil.ReverseProxy` as far as `Connection` options go -/
-def rpDropConnNamed (h : Hdr) : Hdr := (Hdr.connDrops h).foldl Hdr.del h
+def rpDropConnNamed (h : Hdr) : Hdr := Hdr.dropConnNamed h
 
 /-- … so the backend receives exactly the asserted identity (C09 for every client header set,
     `Connection: X-Inverting-Proxy-User-ID` included). -/
 theorem backend_receives_identity (sc : Bool) (u : Bytes) (h : Hdr) :
     Hdr.values (rpDropConnNamed (agent_forwardRequestHeader true sc u h)) userKey = [u] := by
-  unfold rpDropConnNamed
+  unfold rpDropConnNamed Hdr.dropConnNamed
   rw [ConnOpt.values_foldl_del _ _ _ (identity_not_hop_by_hop sc u h)]
   exact user_id_exact sc u h
 
